@@ -417,7 +417,7 @@ pub fn run(engine: &Engine, tier: &str, seed: u64) -> i32 {
         level: "exploration".into(),
         evaluations: outs.len() as u64,
         distinct_nontrivial: shapes.len() as u64,
-        rule: "seeded directory worlds (depth<=4, `src` at the top/middle/twice, adversarial names: dotted stems, `.lalrpop`, `..lalrpop`, upper-case extension, `.bak`, ASCII and Unicode white space, directories named like grammars, non-ASCII names; links to files, to directories inside and outside the root, dangling links; creation order shuffled) x 13 configuration families (process_dir/process/process_file/current_dir/root/src/cargo conventions/in-source/in_dir conflict/CLI, in_dir spellings, OUT_DIR vs out_dir, rerun directives on/off), often with a second build after add/remove/rename/edit. Oracle: independent discovery + path model; the set of paths the child mutated (shim trace) must lie inside the expected outputs, each output must equal a forced build of its text, white-space names rejected, directives = processed files. distinct_nontrivial = distinct (entry point, path rules exercised) combinations".into(),
+        rule: "seeded directory worlds (depth<=4, `src` at the top/middle/twice, adversarial names: dotted stems, `.lalrpop`, `..lalrpop`, upper-case extension, `.bak`, ASCII and Unicode white space, directories named like grammars, non-ASCII names; links to files, to directories inside and outside the root, dangling links; creation order shuffled) x 13 configuration families (process_dir/process/process_file/current_dir/root/src/cargo conventions/in-source/in_dir conflict/CLI, in_dir and out_dir spellings, OUT_DIR vs out_dir, output directory outside / inside / equal to the walked directory, rerun directives on/off, reports now and then), often with a second build after add/remove/rename/edit. Oracle: independent discovery + path model; the set of paths the child mutated (shim trace) must lie inside the expected outputs, each output must equal a forced build of its text, white-space names rejected, directives = processed files. distinct_nontrivial = distinct (entry point, path rules exercised) combinations".into(),
         samples,
         exhaustive: false,
         assumptions: vec!["symlink cycles, non-UTF-8 file names and output-path collisions are not generated (the property is silent on them)".into(), "content oracle is lalrpop itself".into()],
